@@ -67,6 +67,8 @@ type Case struct {
 	Seed     uint64        `json:"seed"`    // latency PRNG
 	GenSeed  uint64        `json:"genseed"` // generator seed (regenerates the case)
 	Mount    bool          `json:"mount"`    // the destination also implements registry.Mounter; MountFrom returns candidates
+	CbSet    string        `json:"cbset"`    // which of PreCopy PostCopy OnCopySkipped OnMounted MountFrom are set, 5 x 0|1 ("" = all set)
+	FindSucc bool          `json:"findsucc"` // FindSuccessors set (to a function calling content.Successors) instead of nil
 	Sched    bool          `json:"sched"`    // run under testing/synctest with a PRNG-controlled scheduler
 	Thorough bool          `json:"thorough"` // generated with the thorough-tier size distribution
 }
@@ -417,6 +419,22 @@ type Result struct {
 	SetupErr error
 }
 
+// CbIsSet reports whether callback kind (pre post skip mounted mountfrom) is set in this case.
+func (c *Case) CbIsSet(kind string) bool {
+	i := map[string]int{"pre": 0, "post": 1, "skip": 2, "mounted": 3, "mountfrom": 4}[kind]
+	return len(c.CbSet) != 5 || c.CbSet[i] == '1'
+}
+
+// Mounting reports whether mountOrCopyNode can try to mount: Mounter destination and MountFrom set.
+func (c *Case) Mounting() bool { return c.Mount && c.CbIsSet("mountfrom") }
+
+func (c *Case) cbBits() string {
+	if len(c.CbSet) == 5 {
+		return c.CbSet
+	}
+	return "11111"
+}
+
 func (c *Case) EffRef() string {
 	if c.DstRef == "" {
 		return c.SrcRef
@@ -612,13 +630,21 @@ func Execute(c *Case) *Result {
 			return nil
 		}
 	}
-	gopts := oras.CopyGraphOptions{
-		Concurrency:   c.K,
-		PreCopy:       cb("pre"),
-		PostCopy:      cb("post"),
-		OnCopySkipped: cb("skip"),
-		OnMounted:     cb("mounted"),
-		MountFrom: func(_ context.Context, d ocispec.Descriptor) ([]string, error) {
+	gopts := oras.CopyGraphOptions{Concurrency: c.K}
+	if c.CbIsSet("pre") {
+		gopts.PreCopy = cb("pre")
+	}
+	if c.CbIsSet("post") {
+		gopts.PostCopy = cb("post")
+	}
+	if c.CbIsSet("skip") {
+		gopts.OnCopySkipped = cb("skip")
+	}
+	if c.CbIsSet("mounted") {
+		gopts.OnMounted = cb("mounted")
+	}
+	if c.CbIsSet("mountfrom") {
+		gopts.MountFrom = func(_ context.Context, d ocispec.Descriptor) ([]string, error) {
 			n := r.node(d)
 			if c.FailCb == "mountfrom" && c.FailNode == n {
 				r.ev(fmt.Sprintf("CF.mountfrom.%d", n), 0, 0)
@@ -633,7 +659,12 @@ func Execute(c *Case) *Result {
 			k := r.lat.Intn(4)
 			r.lmu.Unlock()
 			return []string{"repo/a", "repo/b", "repo/c"}[:min(k, 3)], nil
-		},
+		}
+	}
+	if c.FindSucc {
+		gopts.FindSuccessors = func(ctx context.Context, f content.Fetcher, d ocispec.Descriptor) ([]ocispec.Descriptor, error) {
+			return content.Successors(ctx, f, d)
+		}
 	}
 
 	runCopy := func() {
@@ -790,9 +821,10 @@ func ModelInput(res *Result) string {
 	d0 := append([]int(nil), c.D0...)
 	sort.Ints(d0)
 	mode := c.Mode
-	if c.Mount {
+	if c.Mounting() {
 		mode += "m"
 	}
+	mode += "/" + c.cbBits()
 	return fmt.Sprintf("%d %d %s %d %s %s %s %s rp=%s:%d:%d:%d", len(g.Nodes), c.K, mode, root, ints(cached0),
 		strings.Join(nodes, ";"), ints(d0), tr, c.Stream, c.GenSeed, b2i(c.Thorough), c.Seed)
 }
